@@ -573,7 +573,12 @@ func bidDealDebits(prev, cur map[string]string) map[string]*big.Int {
 		if !strings.HasPrefix(k, pre) {
 			continue
 		}
-		if _, was := prev[k]; was {
+		// the key of an inactive offer is conversation + offer type + the header time the offer was
+		// made at: two offers of one type made in one block share it, and the later one overwrites the
+		// record of the earlier. A record whose VALUE changed is a new inactive offer too (seed 2 of
+		// the sweep after the generator change: offer 31, counter offer, offer 40 in one block, the 40
+		// accepted in the next — the allowance was missed and the payout reported as unauthorised)
+		if pv, was := prev[k]; was && pv == v {
 			continue
 		}
 		var off struct {
